@@ -1,5 +1,6 @@
 import ComposeVerif.Ops.Common
 import ComposeVerif.Model.Fanout
+import ComposeVerif.Model.Locked
 /-! line-protocol ops for C19: `fanout.replay` (trace inclusion + parked-set agreement for the service fan-out) -/
 open Lean
 namespace CV.Ops.C19
@@ -144,6 +145,47 @@ def fanoutSample : Handler := fun args =>
   let runs := (List.range k).map fun i => pre ++ sampleRun cfg (mu cfg s0 + 1) s0 (seed * 1000003 + i * 7919 + 1) []
   Json.mkObj [("runs", Json.arr (runs.map fun r => Json.arr (r.map Json.str).toArray).toArray)]
 
-def handlers : List (String × Handler) := [("fanout.replay", fanoutReplay), ("fanout.enum", fanoutEnum), ("fanout.sample", fanoutSample)]
+
+/-! ### `locked.warn`: the fine-grained model of `warnObsoleteVersion` run under a pseudo-random schedule -/
+
+def getStrListList (j : Json) (k : String) : List (List String) :=
+  match j.getObjVal? k with
+  | .ok (.arr a) => a.toList.map fun x =>
+      match x with
+      | .arr b => b.toList.map fun y => match y.getStr? with | .ok s => s | .error _ => ""
+      | _ => []
+  | _ => []
+
+open CV.Locked in
+def lockedEnabled (locked : Bool) (n : Nat) (s : CV.Locked.St VW Nat) : List (CV.Locked.Label Nat) :=
+  ((List.range n).flatMap fun t => [CV.Locked.Label.lock t, .read t, .write t, .unlock t]).filter
+    fun l => (CV.Locked.step? locked s l).isSome
+
+open CV.Locked in
+def lockedSample (locked : Bool) (n : Nat) : Nat → CV.Locked.St VW Nat → Nat → Nat → CV.Locked.St VW Nat × Nat
+  | 0, s, _, k => (s, k)
+  | fuel + 1, s, seed, k =>
+    match lockedEnabled locked n s with
+    | [] => (s, k)
+    | ls =>
+      let seed' := (seed * 6364136223846793005 + 1442695040888963407) % 18446744073709551616
+      let l := ls.getD ((seed' / 4294967296) % ls.length) (.lock 0)
+      match CV.Locked.step? locked s l with
+      | some s' => lockedSample locked n fuel s' seed' (k + 1)
+      | none => (s, k)
+
+/-- args: `files` (one list per goroutine), `seed`, `unlocked` (run the sections without the mutex).
+    out: final `versionWarning`, the files a warning was logged for, the order of the writes, number of steps, all done -/
+def lockedWarn : Handler := fun args =>
+  let files := getStrListList args "files"
+  let n := files.length
+  let prog : Nat → List (CV.Locked.VW → CV.Locked.VW) := fun t => CV.Locked.warnProg (files.getD t [])
+  let total := (files.map List.length).sum
+  let (s, k) := lockedSample (!(getBool args "unlocked")) n (4 * total + 1) (CV.Locked.init prog ([], [])) (getNat args "seed") 0
+  Json.mkObj [("w", Json.arr (s.mem.1.map Json.str).toArray), ("logged", Json.arr (s.mem.2.map Json.str).toArray),
+    ("hist", Json.arr (s.hist.map fun (t : Nat) => Json.num t).toArray), ("steps", Json.num k),
+    ("quiescent", Json.bool ((List.range n).all fun t => (s.rest t).isEmpty))]
+
+def handlers : List (String × Handler) := [("locked.warn", lockedWarn), ("fanout.replay", fanoutReplay), ("fanout.enum", fanoutEnum), ("fanout.sample", fanoutSample)]
 
 end CV.Ops.C19
